@@ -25,3 +25,9 @@ func (r *Rng) Chance(p int) bool { return r.Intn(100) < p } // p in percent
 func (r *Rng) Fork() *Rng        { return NewRng(r.Next()) }
 
 func pick[T any](r *Rng, xs []T) T { return xs[r.Intn(len(xs))] }
+
+func (r *Rng) Shuffle(n int, swap func(i, j int)) {
+	for i := n - 1; i > 0; i-- {
+		swap(i, r.Intn(i+1))
+	}
+}
